@@ -226,6 +226,7 @@ type Axiom struct {
 // Lemma is a formula to be proved from axioms/spec definitions and the
 // contracts (ensures) of the functions it mentions.
 type Lemma struct {
+	Uses   []string // names of lemmas whose statements are assumed here (each is proved on its own)
 	Name   string
 	Pkg    string
 	Props  []string
